@@ -798,6 +798,31 @@ impl World {
             1 => {
                 let i = self.rng.below(self.tools.len() as u64) as usize;
                 let target = if self.rng.chance(1, 4) { Target::Iid(self.tool_iids[i].clone()) } else { Target::Addr(self.tools[i].clone()) };
+                if !self.batchers.is_empty() && self.rng.chance(1, 10) {
+                    // one transaction: the tool creates child A, A self-destructs (created and destroyed
+                    // in the same transaction: it vanishes), the tool creates B with the very same code
+                    let t = parse_addr(&self.tools[i]);
+                    let n = account_nonce(&mut d.inst, &t);
+                    let a = create_address(&t, n);
+                    let init = asm::tool_init();
+                    let entries = [
+                        (t, asm::tool_call(asm::OP_CREATE, &[], &init)),
+                        (a, asm::tool_call(asm::OP_SELFDESTRUCT, &[asm::word_u64(0xdead)], &[])),
+                        (t, asm::tool_call(asm::OP_CREATE, &[], &init)),
+                    ];
+                    let b = self.rng.pick(&self.batchers.clone()).clone();
+                    let cd = asm::batch_call(false, &entries);
+                    let op = Op::Call { pk, target: Target::Addr(b), data: Some(hx(&cd)), enc: self.enc(), ctx, iid: self.iid(), len: 1_000_000, txid: self.txid() };
+                    let r = d.exec(op);
+                    if receipts_in(&r).first().map(|rc| rc["status"].as_str() == Some("0x1")).unwrap_or(false) && self.tools.len() < 12 {
+                        let twin = addr_hex(&create_address(&t, n + 1));
+                        if !self.tools.contains(&twin) {
+                            self.tools.push(twin);
+                            self.tool_iids.push(String::from("none"));
+                        }
+                    }
+                    return r;
+                }
                 let data = if !self.batchers.is_empty() && self.rng.chance(1, 8) {
                     // go through the batcher: two sub-calls
                     let t = parse_addr(&self.tools[i]);
